@@ -67,12 +67,14 @@ PyItem(s, i) ==
     LET n == Len(s) j == IF i < 0 THEN i + n ELSE i
     IN IF j < 0 \/ j >= n THEN [ok |-> FALSE, at |-> 0] ELSE [ok |-> TRUE, at |-> j + 1]
 
-\* env = [vals, raw, cur]   (raw/cur only for callables that inspect the buffer)
+\* env = [vals, raw, cur, root]   (raw/cur only for callables that inspect the buffer; root = the values of the
+\* packet that started the operation)
 RECURSIVE Eval(_, _)
 Eval(e, env) ==
     CASE e.e = "c" -> Ok(IntV(e.v))
       [] e.e = "f" -> IF HasVal(env.vals, e.n) THEN Ok(Lookup(env.vals, e.n)) ELSE Raise
       [] e.e = "rest" -> Ok(IntV(Len(env.raw) - env.cur))
+      [] e.e = "root" -> IF HasVal(env.root, e.n) THEN Ok(Lookup(env.root, e.n)) ELSE Raise
       [] e.e = "un" ->
             LET a == Eval(e.a, env) IN
             IF ~a.ok THEN Raise
